@@ -203,12 +203,12 @@ def pytest_configure(config):
 
 
 def is_xfail(request):
-    if not "xfail" in request.keywords:
-        return False
-    xfail = request.keywords["xfail"]
-    if xfail.args and xfail.args[0] == False:
-        return False
-    return True
+    # every marker counts (function, class, module), not only the closest one
+    for xfail in request.node.iter_markers(name="xfail"):
+        if xfail.args and xfail.args[0] == False:
+            continue
+        return True
+    return False
 
 
 @pytest.fixture(autouse=True)
